@@ -123,8 +123,8 @@ package generic
 //@   requires 0 <= i && i < len(callbacks) && callbacks[i] != nil && waitOK(d, callbacks)
 //@   ensures #once-never-runs-twice old(callbacks[i].Once) && old(callbacks[i].triggered) ==> result.1 != nil && isErr(result.1, util.ErrOperationError) && cbRuns == old(cbRuns) && waits == old(waits)
 //@   at call dyn#1 assert #callback-runs-with-the-accumulated-output arg1 == old(b) && arg0 == d && cb == old(callbacks)[old(i)] && (cb.Once ==> cb.triggered && !old(callbacks[i].triggered))
-//@   at call handleCallbacks#1 assert #waiting-goes-on-only-when-not-complete !cb.Complete && arg0 === old(callbacks) && arg2 == old(fb)
-//@   at call handleCallbacks#1 assert #reset-output-and-next-timeout arg1 == (cb.ResetOutput ? "" : old(b)) && arg3 == (cb.NextTimeout != 0 ? cb.NextTimeout : old(t))
+//@   at call! handleCallbacks#1 assert #waiting-goes-on-only-when-not-complete !cb.Complete && arg0 === old(callbacks) && arg2 == old(fb)
+//@   at call! handleCallbacks#1 assert #reset-output-and-next-timeout arg1 == (cb.ResetOutput ? "" : old(b)) && arg3 == (cb.NextTimeout != 0 ? cb.NextTimeout : old(t))
 //@   ensures #complete-ends-the-operation-with-the-whole-dialogue result.1 == nil && waits == old(waits) ==> result.0 == fb
 //@   ensures #a-failing-callback-ends-the-operation-with-its-error waits == old(waits) && result.1 != nil ==> len(result.0) == 0
 
@@ -154,6 +154,6 @@ package generic
 //@   modifies everything
 //@   at return set waits = old(waits) + 1
 //@   ensures #a-round-of-waiting-is-counted waits > old(waits)
-//@   at call WithTimeout#1 assert #the-round-waits-for-the-given-timeout arg1 == timeout
-//@   at call executeCallback#1 assert #the-first-callback-whose-trigger-holds-runs-with-the-accumulated-output firstTrig(arg1, arg0, arg2) && arg1 === callbacks && arg4 == timeout
+//@   at call! WithTimeout#1 assert #the-round-waits-for-the-given-timeout arg1 == timeout
+//@   at call! executeCallback#1 assert #the-first-callback-whose-trigger-holds-runs-with-the-accumulated-output firstTrig(arg1, arg0, arg2) && arg1 === callbacks && arg4 == timeout
 //@   at return assert #no-report-in-time-is-a-timeout-error cancelled(ctx) && r == nil ==> result.1 != nil && isErr(result.1, util.ErrTimeoutError) && len(result.0) == 0
